@@ -25,9 +25,9 @@ type C struct {
 	NoRetry   func(ctx context.Context, tok int64) (int64, error) `retry:"false" rpc_method:"NS.Echo"`
 	NotNotify func(tok int64) error                               `notify:"false" rpc_method:"NS.Echo"`
 	// other signature shapes of an untagged function: no error result, no context
-	Plain    func(tok int64) int64                     `rpc_method:"NS.Echo"`
+	Plain    func(tok int64) int64                      `rpc_method:"NS.Echo"`
 	PlainCtx func(ctx context.Context, tok int64) int64 `rpc_method:"NS.Echo"`
-	NoCtx    func(tok int64) (int64, error)            `rpc_method:"NS.Echo"`
+	NoCtx    func(tok int64) (int64, error)             `rpc_method:"NS.Echo"`
 }
 
 type wireReq struct {
